@@ -1606,16 +1606,22 @@ def slice_case(case, t):
 
 
 def gn_delta(case):
-    """one GN step on the real code: (parameters before, after, conditioning info) or the exception"""
+    """one GN step on the real code: (parameters before, after, singular values of A, env, exception or None)"""
     env = build_env(case)
     setup_call(env, 0)
     before = [raw(p_).clone() for p_ in env.params]
-    with contextlib.redirect_stdout(io.StringIO()), warnings.catch_warnings():
-        warnings.simplefilter("ignore")
-        env.opt.step(env.input, target=env.target, weight=pass_weight(env.wstep, case.get("wstyle", "list")))
+    exc = None
+    try:
+        with contextlib.redirect_stdout(io.StringIO()), warnings.catch_warnings():
+            warnings.simplefilter("ignore")
+            env.opt.step(env.input, target=env.target, weight=pass_weight(env.wstep, case.get("wstyle", "list")))
+    except Exception as e:
+        exc = e
+    if not env.sol_log:
+        raise exc if exc is not None else RuntimeError("solver not called")
     A = env.sol_log[0]["A"].double()
-    sv = torch.linalg.svdvals(A) if A.numel() else torch.zeros(0)
-    return before, [raw(p_).clone() for p_ in env.params], sv, env
+    sv = torch.linalg.svdvals(A) if A.numel() and bool(torch.isfinite(A).all()) else torch.zeros(0)
+    return before, [raw(p_).clone() for p_ in env.params], sv, env, exc
 
 
 def check_itemwise(ctx: Ctx, case):
@@ -1629,34 +1635,45 @@ def check_itemwise(ctx: Ctx, case):
     singles = []
     for t in range(B):
         try:
-            b1, a1, sv1, _ = gn_delta(slice_case(case, t))
+            b1, a1, sv1, _, e1 = gn_delta(slice_case(case, t))
         except Exception:
             ctx.count("itemwise.degenerate")       # an item that cannot be stepped on its own says nothing about batching
             return
-        if not all(bool(torch.isfinite(x_).all()) for x_ in a1):
+        if e1 is not None or not all(bool(torch.isfinite(x_).all()) for x_ in a1):
             ctx.count("itemwise.degenerate")
             return
         singles.append((b1, a1, sv1))
     try:
-        b0, a0, sv0, env = gn_delta(case)
+        b0, a0, sv0, env, e0 = gn_delta(case)
     except Exception as e:
-        ctx.fail(cd, f"itemwise: the batched step raises {type(e).__name__}: {str(e)[:160]} although every item steps on its own")
+        ctx.fail(cd, f"itemwise: the batched step raises {type(e).__name__}: {str(e)[:160]} before the solver is reached although every item steps on its own")
         return
-    if not all(bool(torch.isfinite(x_).all()) for x_ in a0):
-        ctx.fail(cd, "itemwise: the batched step produces non-finite parameters although every item alone gives finite ones")
-        return
+    # conditioning first: rank decisions (pinv / lstsq cut-offs) are relative to the largest singular value of the *whole
+    # batch*; the comparison is meaningful only if no item has a non-zero singular value the batch would treat differently,
+    # and only if the Jacobian is not pure rounding noise
     smax = float(sv0.max()) if sv0.numel() else 0.0
-    pos = sv0[sv0 > 1e-12 * smax] if smax > 0 else sv0
-    if smax == 0.0 or float(pos.min()) < (1e-6 if f64 else 1e-3) * smax:
-        ctx.count("itemwise.ill-conditioned")      # rank decisions are relative to the largest singular value of the whole batch
+    zero = 2 * eps * smax           # below pinv's own cut-off max(m,n)·eps: anything pinv might invert counts as non-zero
+    thr = (1e-5 if f64 else 1e-2) * smax
+    pos = sv0[sv0 > zero] if smax > 0 else sv0
+    single_ok = all(sv1.numel() > 0 and float(sv1.max()) >= 1e-6 and bool((sv1[sv1 > 2 * eps * float(sv1.max())] > 10 * thr).all())
+                    for _, _, sv1 in singles)
+    if smax < 1e-6 or pos.numel() == 0 or float(pos.min()) < thr or not single_ok:
+        ctx.count("itemwise.ill-conditioned")
         return
     A0 = env.sol_log[0]["A"].double()
     zero_cols = int((A0.abs().amax(0) == 0).sum()) if A0.numel() else 0
-    unique = int((sv0 > 1e-12 * smax).sum()) == A0.shape[1] - zero_cols
+    unique = int((sv0 > zero).sum()) == A0.shape[1] - zero_cols
     uses_pinv = case["solver"] == "PINV" or (case["solver"] == "default" and env.default_solver == "PINV")
     if not unique and not uses_pinv:
         ctx.count("itemwise.nonunique-lstsq")      # LSTSQ promises *a* least-squares solution; only PINV's is canonical
         return
+    if e0 is not None:
+        ctx.fail(cd, f"itemwise: the batched step raises {type(e0).__name__}: {str(e0)[:160]} although every item steps on its own")
+        return
+    if not all(bool(torch.isfinite(x_).all()) for x_ in a0):
+        ctx.fail(cd, "itemwise: the batched step produces non-finite parameters although every item alone gives finite ones")
+        return
+    cond = smax / float(pos.min())
     gmax = max((float((xa - xb).abs().max()) for xa, xb in zip(a0, b0) if xa.numel()), default=0.0)
     for t in range(B):
         b1, a1, _ = singles[t]
@@ -1664,8 +1681,9 @@ def check_itemwise(ctx: Ctx, case):
             db = (xa - xb).double().reshape(B, -1)[t]
             ds = (ya - yb).double().reshape(-1)
             sc = max(float(db.abs().max()), float(ds.abs().max()))
-            lim = ((1e-6 if f64 else 2e-2) * sc + (1e-9 if f64 else 1e-4) * gmax
-                   + 256 * eps * max(1.0, float(xb.double().abs().max())))
+            # relative to the item's own step + the coupling a backward-stable solve of the whole batch may introduce
+            lim = ((1e-6 if f64 else 2e-2) * sc + 256 * eps * cond * gmax
+                   + 256 * eps * cond * max(1.0, float(xb.double().abs().max())))
             if not bool(((db - ds).abs() <= lim).all()):
                 j = int((db - ds).abs().argmax())
                 ctx.fail(cd, f"itemwise: batched GN step moves item {t} of parameter {pi} by {float(db[j]):.6e} (component {j}) but the same "
@@ -1687,6 +1705,7 @@ def itemwise_cases(rng, n, kernels=False):
                       wide=0.15, max_rows=60, max_cols=40, wsuffix=rng.choice([0, 0, 1, 1, 1]),
                       **({"kmode": rng.choice(["none", "auto", "fast", "triggs", "list"])} if pl is None else extra))
         c["bshape"] = [B]
+        c["kind"] = "itemwise"
         if any(not lf["rg"] for lf in c["leaves"] if lf["role"] == "param"):
             continue
         out.append(c)
@@ -1831,6 +1850,9 @@ def replay(ctx: Ctx, case) -> bool:
     if c.get("kind") == "wdiag":
         cfg = {k: v for k, v in c.items() if k != "kind"}
         run_wdiag(ctx, pending, [cfg])
+    elif c.get("kind") == "itemwise":
+        c.pop("n_frozen", None)
+        check_itemwise(ctx, c)
     else:
         c.pop("n_frozen", None)
         check_case(ctx, c, pending)
